@@ -31,6 +31,7 @@ def run(ctx):
     from rules import c11, c16
     c11.twins(ctx, P)
     c11.salt_tables(ctx, P)
+    c11.hash_tables(ctx, P)
     c11.hashed_subpackets_all_fed(ctx, P)
     c16.same_form(ctx, P)
     c16.trim_set(ctx, P)
